@@ -79,6 +79,7 @@ def parseEqBool : Toks → Except PErr (Bool × Toks)
 
 def parseEqDelegate : Toks → Except PErr (Delegate × Toks)
   | .punct '=' :: .ident "ref" :: rest => .ok (.byRef false, rest)
+  | .punct '=' :: .ident "Self" :: rest => .ok (.bySelf, rest)
   | .punct '=' :: .ident s :: rest =>
       if isKeyword s then .error .syn
       else if s == "Borrow" then .ok (.byRef true, rest)
